@@ -72,6 +72,9 @@ func (m singleModel) Initialise() (error, TimeSteppingModel, data.ND3Float64, da
 	}
 	model := factory()
 	desc := model.Description()
+	if len(desc.Dimensions) > 0 {
+		return errors.New(fmt.Sprintf("Model %s has table parameters, which cannot be supplied in this format", m.Name)), nil, nil, nil, warnings
+	}
 
 	params := make([]float64, len(desc.Parameters))
 	for i, p := range desc.Parameters {
@@ -102,7 +105,15 @@ func (m singleModel) Initialise() (error, TimeSteppingModel, data.ND3Float64, da
 			inputs = data.NewArray3DFloat64(1, len(desc.Inputs), len(thisInput))
 		}
 
+		if len(thisInput) != inputs.Len3() {
+			return errors.New(fmt.Sprintf("Input %s has %d values, expected %d", p, len(thisInput), inputs.Len3())), nil, nil, nil, warnings
+		}
+
 		inputs.Apply([]int{0, i, 0}, 2, 1, thisInput)
+	}
+
+	if inputs == nil {
+		return errors.New("No input timeseries provided"), nil, nil, nil, warnings
 	}
 
 	return nil, model, inputs, states, warnings
